@@ -237,12 +237,12 @@ func c18R1(c *kit.Ctx, m *mbModel) {
 		run := func(code, v int64) *kit.IResult {
 			ip := m.reqInterp(code, -1, map[int64]int64{2: v})
 			ip.Stop = func(n ast.Node) bool { return useSet[n] }
-			ip.OnCall = func(call *ast.CallExpr, args []kit.IVal) (string, []kit.IVal) {
-				if names, _, ok := m.providerCall(m.Req, call); ok {
+			m.hook(ip, func(call *ast.CallExpr, args []kit.IVal) (string, []kit.IVal) {
+				if names, _, ok := m.providerCall(m.fnOf(call), call); ok {
 					return "provider:" + strings.Join(names, "|"), nil
 				}
 				return "", nil
-			}
+			})
 			c.AddValuations(1)
 			return ip.Run()
 		}
@@ -280,16 +280,16 @@ func c18R1(c *kit.Ctx, m *mbModel) {
 						continue
 					}
 					inArm++
-					code3, _, isExc := m.excReturn(m.Req, e.Ret)
+					code3, isErr, isExc := m.exitExc(e)
 					switch {
 					case e.Tainted:
 						o.Undecided("quantity %d: exit at %s depends on a value the evaluator cannot follow", v, m.Req.At(e.Ret))
 						decided = true
-					case !isExc || code3 != mbExcIllegalValue:
+					case !isExc || isErr || code3 != mbExcIllegalValue:
 						o.Violation("function code %d with quantity %d is answered by `%s` (%s), not by exception 3 (illegal data value)", code, v, trunc(m.Req.Str(e.Ret), 60), m.Req.At(e.Ret))
 						decided = true
-					case len(e.Trace) > 0:
-						o.Violation("function code %d with quantity %d touches the registers (%s) before it is refused", code, v, strings.Join(e.Trace, ","))
+					case len(provEvents(e.Trace)) > 0:
+						o.Violation("function code %d with quantity %d touches the registers (%s) before it is refused", code, v, strings.Join(provEvents(e.Trace), ","))
 						decided = true
 					}
 					if decided {
@@ -490,13 +490,13 @@ func c18R3(c *kit.Ctx, m *mbModel) {
 				o.und = "no exit reached"
 			}
 			for _, e := range res.Exits {
-				code1, _, isExc := m.excReturn(m.Req, e.Ret)
+				code1, isErr, isExc := m.exitExc(e)
 				switch {
 				case e.Tainted:
 					o.und = "exit depends on a value the evaluator cannot follow"
-				case !isExc || code1 != mbExcIllegalFunction:
+				case !isExc || isErr || code1 != mbExcIllegalFunction:
 					o.bad = fmt.Sprintf("is answered by `%s` (%s), not by exception 1 (illegal function)", trunc(m.Req.Str(e.Ret), 60), m.Req.At(e.Ret))
-				case len(e.Trace) > 0:
+				case len(provEvents(e.Trace)) > 0:
 					o.bad = "touches the registers before it is refused"
 				}
 			}
@@ -842,8 +842,8 @@ func (m *mbModel) checkProviderError(c *kit.Ctx, r *kit.Rule, arm *mbArm, code i
 	}
 	ip := m.reqInterp(code, -1, words)
 	calls := 0
-	ip.OnCall = func(call *ast.CallExpr, args []kit.IVal) (string, []kit.IVal) {
-		names, _, ok := m.providerCall(m.Req, call)
+	m.hook(ip, func(call *ast.CallExpr, args []kit.IVal) (string, []kit.IVal) {
+		names, _, ok := m.providerCall(m.fnOf(call), call)
 		if !ok {
 			return "", nil
 		}
@@ -858,7 +858,7 @@ func (m *mbModel) checkProviderError(c *kit.Ctx, r *kit.Rule, arm *mbArm, code i
 		}
 		out[len(out)-1] = kit.IVal{K: 'e'}
 		return "fail:" + strings.Join(names, "|"), out
-	}
+	})
 	res := ip.Run()
 	c.AddValuations(1)
 	if calls == 0 {
@@ -871,18 +871,19 @@ func (m *mbModel) checkProviderError(c *kit.Ctx, r *kit.Rule, arm *mbArm, code i
 	}
 	seen := 0
 	for _, e := range res.Exits {
-		if len(e.Trace) == 0 || e.Ret == nil {
+		pe := provEvents(e.Trace)
+		if len(pe) == 0 || e.Ret == nil {
 			continue
 		}
 		seen++
-		_, errVar, isExc := m.excReturn(m.Req, e.Ret)
+		_, isErr, isExc := m.exitExc(e)
 		switch {
 		case e.Tainted:
 			o.Undecided("exit at %s depends on a value the evaluator cannot follow", m.Req.At(e.Ret))
-		case len(e.Trace) > 1:
-			o.Violation("after the provider refused %s the request goes on to %s", e.Trace[0], strings.Join(e.Trace[1:], ","))
-		case !isExc || errVar == nil:
-			o.Violation("the provider refused %s, yet the request is answered by `%s` (%s) instead of the mapped error", e.Trace[0], trunc(m.Req.Str(e.Ret), 60), m.Req.At(e.Ret))
+		case len(pe) > 1:
+			o.Violation("after the provider refused %s the request goes on to %s", pe[0], strings.Join(pe[1:], ","))
+		case !isExc || !isErr:
+			o.Violation("the provider refused %s, yet the request is answered by `%s` (%s) instead of the mapped error", pe[0], trunc(m.Req.Str(e.Ret), 60), m.Req.At(e.Ret))
 		}
 	}
 	if seen == 0 {
@@ -896,8 +897,8 @@ func (m *mbModel) checkSingleWrite(c *kit.Ctx, o *kit.Ob, arm *mbArm, code int64
 	for _, fail := range []bool{true, false} {
 		ip := m.reqInterp(code, 4, nil)
 		var writeCalls []*ast.CallExpr
-		ip.OnCall = func(call *ast.CallExpr, args []kit.IVal) (string, []kit.IVal) {
-			names, writer, ok := m.providerCall(m.Req, call)
+		m.hook(ip, func(call *ast.CallExpr, args []kit.IVal) (string, []kit.IVal) {
+			names, writer, ok := m.providerCall(m.fnOf(call), call)
 			if !ok {
 				return "", nil
 			}
@@ -909,7 +910,7 @@ func (m *mbModel) checkSingleWrite(c *kit.Ctx, o *kit.Ob, arm *mbArm, code int64
 				return "W:" + strings.Join(names, "|"), []kit.IVal{{K: 'n'}}
 			}
 			return "R:" + strings.Join(names, "|"), nil
-		}
+		})
 		res := ip.Run()
 		c.AddValuations(1)
 		if len(res.Unsupported) > 0 || res.Overflow {
@@ -918,7 +919,7 @@ func (m *mbModel) checkSingleWrite(c *kit.Ctx, o *kit.Ob, arm *mbArm, code int64
 		}
 		sawWrite := false
 		for _, e := range res.Exits {
-			if e.Ret == nil || m.armAt(e.Ret) != arm && len(e.Trace) == 0 {
+			if e.Ret == nil || m.armAt(e.Ret) != arm && len(provEvents(e.Trace)) == 0 {
 				continue
 			}
 			if e.Tainted {
@@ -932,13 +933,13 @@ func (m *mbModel) checkSingleWrite(c *kit.Ctx, o *kit.Ob, arm *mbArm, code int64
 				}
 			}
 			if nw > 1 {
-				o.Violation("a single-write request performs %d provider writes (%s) before returning at %s", nw, strings.Join(e.Trace, ","), m.Req.At(e.Ret))
+				o.Violation("a single-write request performs %d provider writes (%s) before returning at %s", nw, strings.Join(provEvents(e.Trace), ","), m.Req.At(e.Ret))
 				return
 			}
 			if nw == 1 {
 				sawWrite = true
-				_, errVar, isExc := m.excReturn(m.Req, e.Ret)
-				if fail && (!isExc || errVar == nil) {
+				_, isErr, isExc := m.exitExc(e)
+				if fail && (!isExc || !isErr) {
 					o.Violation("the provider write failed, yet the request is answered by `%s` (%s) instead of the mapped error", trunc(m.Req.Str(e.Ret), 60), m.Req.At(e.Ret))
 					return
 				}
